@@ -53,7 +53,7 @@ def reference_decode(codec, comp):
 class C16(Check):
     ID = 'C16'
     LEVEL = 'fault_enumeration'
-    BUDGET = {'quick': 30, 'thorough': 300}
+    BUDGET = {'quick': 30, 'thorough': 240}
     RULE = ('case = (codec, chunk list given as (kind, sizes, data seed), list of re-chunkings of the compressed bytes, '
             'set of truncation points); fault model = the compressed stream ends at byte t, for EVERY t < len when the '
             'compressed stream is <= 512 B (quick) / 2 KiB (thorough), 40 sampled t otherwise, each fed whole and cut in two; '
@@ -69,7 +69,7 @@ class C16(Check):
     _ops = {}
 
     def generate(self, rng, tier, shard, nshards):
-        n = 360 if tier == 'quick' else 3000
+        n = 360 if tier == 'quick' else 10 ** 7
         big = 3 * 131072 + 17 if tier == 'quick' else 1 << 20
         for k in range(n):
             codec = ('gzip', 'zstd')[k % 2]
